@@ -186,7 +186,23 @@ def record_one(tw, sc, stats, twin=True, budget=None):
     if outcome == "return" and ystar is not None:
         L = contraction(perv, sc, sc["P1"], sc["P2"], ystar)
     end = {"ev": "End", "outcome": outcome, "exc": exc, "J": J, "n": n, "hasL": L is not None, "L": F(L or 0.0),
-           "budget": budget or BUDGET}
+           "budget": budget or BUDGET, "hasOwn": False, "yJ": 0.0, "ppY": [0.0, 0.0], "dppY": [0.0, 0.0], "Lown": 0.0}
+    if outcome == "return" and J[0] + J[1] != 0:
+        # oracle values at the permeate composition OF THE RETURNED FLUXES (needs no observation of the iteration)
+        try:
+            yJ = J[0] / (J[0] + J[1])
+            if 0.0 <= yJ <= 1.0:
+                ppm, ppx = pp_oracle(sc, yJ)
+                h = 1e-6
+                lo, hi = max(0.0, yJ - h), min(1.0, yJ + h)
+                a_, _ = pp_oracle(sc, lo)
+                b_, _ = pp_oracle(sc, hi)
+                Lo = contraction(perv, sc, sc["P1"], sc["P2"], yJ)
+                end.update({"hasOwn": Lo is not None, "yJ": F(yJ), "ppY": ppm, "ppYmolar": ppx,
+                            "dppY": [F((b_[0] - a_[0]) / (hi - lo)), F((b_[1] - a_[1]) / (hi - lo))], "Lown": F(Lo or 0.0)})
+        except Exception:  # noqa: BLE001
+            pass
+    end.setdefault("ppYmolar", [0.0, 0.0])
     tr.append(end)
     if twin and outcome == "return":
         k = sc["k"]
